@@ -20,7 +20,7 @@ import (
 // RunPar: heights 1..k flushed, tail-side DeleteRange(1, to) on the PARALLEL deletion path
 // (threshold lowered through the verif hook) with a scripted handler failure, then the retry
 // from the new tail without failures. Returns a Coq [pcase] term.
-func RunPar(t *testing.T, rng *emit.Rand, cfg Config, k, to uint64, fail Fail) (string, map[string]any) {
+func RunPar(t *testing.T, rng *emit.Rand, cfg Config, k, to uint64, fails ...Fail) (string, map[string]any) {
 	var term string
 	descr := map[string]any{}
 	old := store.VerifSetDeleteRangeParallelThreshold(2)
@@ -66,15 +66,19 @@ func RunPar(t *testing.T, rng *emit.Rand, cfg Config, k, to uint64, fail Fail) (
 			p := r.probe()
 			return out, emit.List(lg), "(" + p[len("(Some "):]
 		}
-		o1, l1, p1 := step(1, []Fail{fail})
+		o1, l1, p1 := step(1, fails)
 		var from2 uint64 = 1
 		if h, err := r.s.Tail(ctx); err == nil {
 			from2 = h.Height()
 		}
 		o2, l2, p2 := step(from2, nil)
 		_ = r.s.Stop(ctx)
-		fs := fmt.Sprintf("[(%d%%nat, %d, %s)]", fail.Handler, fail.Height, emit.B(fail.Panic))
-		term = fmt.Sprintf("CPar (PCase %s %d %d%%nat 1 %d %s %s %s %s %s %s %s)", emit.List(chainTerms), k, cfg.NH, to, fs, o1, l1, p1, o2, l2, p2)
+		fl := make([]string, len(fails))
+		for i, f := range fails {
+			fl[i] = fmt.Sprintf("(%d%%nat, %d, %s)", f.Handler, f.Height, emit.B(f.Panic))
+		}
+		term = fmt.Sprintf("CPar (PCase %s %d %d%%nat 1 %d %s %s %s %s %s %s %s)", emit.List(chainTerms), k, cfg.NH, to, emit.List(fl), o1, l1, p1, o2, l2, p2)
+		fail := fails
 		descr["mode"], descr["k"], descr["to"], descr["fail"], descr["handlers"], descr["out1"], descr["out2"] = "parallel", k, to, fail, cfg.NH, o1, o2
 	})
 	return term, descr
